@@ -137,7 +137,7 @@ def single_cases(out, rng, tier):
             v = fem.IntegralForm([fun], v=fc, dV=region.dV, grad_v=[False]).assemble()
             out.write(rec(rid + "-linear-value", "linear", [field_desc(f)], [block(1, 0, False, False, fun)], region.dV, v, 1, 2))
         # axisymmetric: weight 2 pi R dV, hoop terms on the radial component
-        for variant in ("linear", "bilinear"):
+        for variant in ("linear", "bilinear", "linear-value", "bilinear-value-grad"):
             rid = "axisymmetric-o%d-%s" % (order, variant)
             if not out.want(rid):
                 continue
@@ -146,7 +146,16 @@ def single_cases(out, rng, tier):
             f = fem.FieldAxisymmetric(region, dim=2)
             f.radius = rng.choice([1.0, 2.0, 4.0], size=(q, c))
             fc = fem.FieldContainer([f])
-            if variant == "linear":
+            if variant == "linear-value":          # value test space: (in-plane 2 + hoop) components
+                fun = rng.randint(-3, 4, size=(3, q, c)).astype(float)
+                res = fem.IntegralForm([fun], v=fc, dV=region.dV, grad_v=[False]).assemble()
+                blocks = [block(1, 0, False, False, fun)]
+            elif variant == "bilinear-value-grad":  # value test / gradient trial space (follower loads)
+                fun = rng.randint(-3, 4, size=(3, 3, 3, q, c)).astype(float)
+                fun[2, 2, 2] *= 4.0
+                res = fem.IntegralForm([fun], v=fc, dV=region.dV, u=fc, grad_v=[False], grad_u=[True]).assemble()
+                blocks = [block(1, 1, False, True, fun)]
+            elif variant == "linear":
                 fun = rng.randint(-3, 4, size=(3, 3, q, c)).astype(float)
                 res = fem.IntegralForm([fun], v=fc, dV=region.dV).assemble()
                 blocks = [block(1, 0, True, False, fun)]
@@ -156,7 +165,7 @@ def single_cases(out, rng, tier):
                 res = fem.IntegralForm([fun], v=fc, dV=region.dV, u=fc).assemble()
                 blocks = [block(1, 1, True, True, fun)]
             obs = res / (2 * np.pi)
-            out.write(rec(rid, variant, [field_desc(f)], blocks, f.radius * region.dV, obs, 3 if variant == "bilinear" else 1, 2,
+            out.write(rec(rid, variant.split("-")[0], [field_desc(f)], blocks, f.radius * region.dV, obs, 3 if variant.startswith("bilinear") else 1, 2,
                           axi=True, R=f.radius, dV=region.dV))
 
 
